@@ -308,12 +308,19 @@ class PSub(PBase):
     size: int = 0
     limit: int = 20          # re-annotated: PSub owns `limit` now
 
+@spec_class(init_overflow_attr="extra")
+class POver:
+    level: int = 1
+
 @spec_class
 class Host2:
     base: PBase
     sub: PSub
     kids: List[PSub] = []
     lookup: Dict[str, PSub] = {}
+    opts: POver
+    flag: int = 0
+    sw: bool = False
 '''
 
 
@@ -339,6 +346,13 @@ EFFECT_OPS = {
     "ctor_sub_kw": (lambda ns, h: ns["PSub"](name="m", limit=77, colour="z", size=9), lambda r: _st(r),
                     (("colour", "z"), ("limit", 77), ("name", "m"), ("size", 9))),
     "ctor_base_kw": (lambda ns, h: ns["PBase"](limit=5, colour="w"), lambda r: _st(r), (("colour", "w"), ("limit", 5))),
+    # a nested class with an overflow attribute advertises **extra: declared keywords and arbitrary ones, in either order
+    "with_opts_declared_kw": (lambda ns, h: h.with_opts(level=2), lambda r: _st(r.opts), (("extra", {}), ("level", 2))),
+    "with_opts_overflow_kw": (lambda ns, h: h.with_opts(timeout=10), lambda r: _st(r.opts), (("extra", {"timeout": 10}), ("level", 1))),
+    "with_opts_other_overflow_kw": (lambda ns, h: h.with_opts(retries=3, level=4), lambda r: _st(r.opts), (("extra", {"retries": 3}), ("level", 4))),
+    # a keyword whose value EQUALS the current one but is not it (True == 1, 0 == False): it still has to arrive
+    "update_flag_equal_other_type": (lambda ns, h: h.update(flag=False), lambda r: (type(r.flag).__name__, r.flag), ("bool", False)),
+    "update_sw_equal_other_type": (lambda ns, h: h.update(sw=0), lambda r: ("raised-or-stored", type(r.sw).__name__), ("raised", "TypeError", "")),
 }
 
 
@@ -354,6 +368,8 @@ def effect_case(order, out):
             got = obs(call(ns, h))
         except Exception as e:
             got = ("raised", type(e).__name__, str(e)[:80])
+        if isinstance(want, tuple) and want and want[0] == "raised" and isinstance(got, tuple) and got[:2] == want[:2]:
+            continue
         if got != want:
             out.append(violation(PROP, {"part": "effects", "kind": "advertised_keyword_did_not_reach_the_nested_object", "call": name, "position": i,
                                         "first": order[0], "raised": got[1] if got and got[0] == "raised" else None},
